@@ -1,7 +1,52 @@
-import PprofVerif.Base.Tok
-/- Driver operations for C11. -/
-namespace Driver.C11
-open PV
+import PprofVerif.Spec.Prune
+import Driver.Ops.C06
+/- Driver operations for C11 (frame-dropping rules).
 
-def ops : List (String × (List String → String)) := []
+Token forms: tbl := <list str> — the SIMPLIFIED names (see op `simplify`) an expression matches;
+views as in Driver.Ops.C06. -/
+namespace Driver.C11
+open PV PV.Prune PV.PruneSpec PV.FilterSpec Driver.C06
+
+def rdTbl : Rd Rx := do
+  let t ← Rd.list Rd.str
+  pure (fun s => t.contains s)
+
+def rdOptTbl : Rd (Option Rx) := do
+  let t ← Rd.opt (Rd.list Rd.str)
+  pure (t.map (fun tbl => fun s => tbl.contains s))
+
+def rdDK : Rd (Rx × Option Rx) := do let d ← rdTbl; let k ← rdOptTbl; pure (d, k)
+
+def viewsOf (p : Profile) : String := wrViews (p.samples.map (view p))
+
+def ops : List (String × (List String → String)) := [
+  ("simplify", fun ts => match Rd.run Rd.str ts with
+    | some s => (simplifyFunc s).toTok
+    | none => "bad-op"),
+  ("prune.model", fun ts => with2 rdDK Rd.profile ts fun (d, k) p =>
+    Wr.render (Wr.profile (prune p d k))),
+  ("prune.unrepaired", fun ts => with2 rdDK Rd.profile ts fun (d, k) p =>
+    Wr.render (Wr.profile (pruneUnrepaired p d k))),
+  ("prune.spec", fun ts => with2 rdDK Rd.profile ts fun (d, k) p =>
+    wrViews (pruneSpec p (pruneName d k))),
+  ("prunefrom.model", fun ts => with2 rdTbl Rd.profile ts fun d p =>
+    Wr.render (Wr.profile (pruneFrom p d))),
+  ("prunefrom.spec", fun ts => with2 rdTbl Rd.profile ts fun d p =>
+    wrViews (pruneFromSpec p (fun n => d (simplifyFunc n)))),
+  ("ru.model", fun ts =>
+    with2 (Rd.list (do let k ← Rd.str; let r ← rdOptTbl; pure (k, r))) Rd.profile ts fun tbl p =>
+    match removeUninteresting (fun e => (tbl.lookup e).bind id) p with
+    | .ok r => "ok " ++ Wr.render (Wr.profile r)
+    | .err _ => "err"
+    | .panic _ => "panic"),
+  ("anchored", fun ts => match Rd.run Rd.str ts with
+    | some s => (anchored s).toTok
+    | none => "bad-op"),
+  ("views", fun ts => match Rd.run Rd.profile ts with
+    | some p => viewsOf p
+    | none => "bad-op"),
+  ("valid", fun ts => match Rd.run Rd.profile ts with
+    | some p => if p.validB then "1" else "0"
+    | none => "bad-op")
+]
 end Driver.C11
